@@ -18,6 +18,10 @@ func main() {
 	if len(os.Args) < 3 {
 		usage()
 	}
+	// the sandbox is offline: every go command started from here (package loading, overlay tests) must not try the network
+	for k, v := range map[string]string{"GOFLAGS": "-mod=mod", "GOPROXY": "off", "GOSUMDB": "off", "GOTOOLCHAIN": "local"} {
+		os.Setenv(k, v)
+	}
 	cmd, id := os.Args[1], os.Args[2]
 	fs := flag.NewFlagSet(cmd, flag.ExitOnError)
 	tier := fs.String("tier", envOr("VERIF_TIER", "quick"), "quick | thorough")
